@@ -1,6 +1,6 @@
 (* C13 property theorems only. *)
 From Coq Require Import Permutation.
-From V Require Import lib.Verdict C13.Model C13.Proofs C13.ProofsCla C13.ProofsLin C13.ProofsSim.
+From V Require Import lib.Verdict C13.Model C13.Proofs C13.ProofsCla C13.ProofsLin C13.ProofsSim C13.ProofsLb.
 
 (* ---- the index, calls applied one after the other (all call sequences, all services/registries) *)
 
@@ -198,6 +198,45 @@ Theorem C13_weights_consistent : forall c1 c2 g1 g2,
   snd (fst g1) = snd (fst g2).
 Proof. exact weights_consistent. Qed.
 Print Assumptions C13_weights_consistent.
+
+(* ---- locality load balancing (ApplyLocalityLoadBalancer: failoverPriority, failover; not distribute) *)
+
+(* the model with endpoint labels attached to the members is the assignment model *)
+Theorem C13_labelled_assignment : forall c, map strip_l (build_cla_l c) = build_cla c.
+Proof. exact build_cla_l_strip. Qed.
+Print Assumptions C13_labelled_assignment.
+
+(* priorities and failover neither drop nor duplicate an endpoint: for every input, setting, proxy
+   locality and proxy labels the members after load balancing are a permutation of the members before *)
+Theorem C13_lb_preserves_membership : forall c lb,
+  Permutation (flat_map (fun g : pgroup => snd g) (map strip_p (build_cla_lb c lb)))
+              (flat_map (fun g : lgroup => snd g) (build_cla c)).
+Proof. exact build_cla_lb_members. Qed.
+Print Assumptions C13_lb_preserves_membership.
+
+(* ... and they stay grouped by locality: locality by locality the members are the same *)
+Theorem C13_lb_preserves_locality : forall c lb L,
+  Permutation (members_at L (build_cla_lb c lb)) (members_at_in L (build_cla_l c)).
+Proof. exact build_cla_lb_members_at. Qed.
+Print Assumptions C13_lb_preserves_locality.
+
+(* weights after load balancing: REFUTED at or above 2^32 (applyFailoverPriorityPerLocality re-sums the
+   members of each priority group with a wrapping uint32 +=, finding failover-priority-weight-wraps) ... *)
+Theorem C13_lb_weights_refuted :
+  exists c lb g, In g (build_cla_lb c lb) /\ pg_members g <> [] /\
+    Forall (fun w => (w <= U32MAX)%N) (pg_weights g) /\
+    pg_weight g <> Some (N.min (plain_sum (pg_weights g)) U32MAX) /\
+    map (fun g : lgroup => snd (fst g)) (build_cla c) = [Some U32MAX].
+Proof. exact lb_weights_refuted. Qed.
+Print Assumptions C13_lb_weights_refuted.
+
+(* ... partial: every group with members whose weights sum to less than 2^32 carries exactly that sum,
+   for every setting (no split, failover only, failoverPriority split) *)
+Theorem C13_lb_weights_partial : forall c lb g,
+  In g (build_cla_lb c lb) -> pg_members g <> [] -> (plain_sum (pg_weights g) < U32MOD)%N ->
+  pg_weight g = Some (plain_sum (pg_weights g)).
+Proof. exact lb_weights_exact. Qed.
+Print Assumptions C13_lb_weights_partial.
 
 (* non-vacuity *)
 Example C13_spec_nonvacuous :
